@@ -1064,6 +1064,748 @@ theorem C04_block_finalising_unlists (cfg : Cfg) (n : Node) (txs : List (Tx × B
     refine (listedAt_congr ?_).mp hl
     rw [getS_of_store (finalise_store _), setTimeoutRollback_frame _ _ _ (by intro x e; cases e) (by intro x e; cases e)]
 
+/-! ### … and kept in between: a block that accepts no receipt for an open transaction keeps it open -/
+
+/-- the timeout step leaves the record of `t` as it is or — when `t` is on the list it walks — sets it to BEGIN_ROLLBACK under this height -/
+theorem rollbackFold_rec_cases (h : Nat) (t : TxId) (ids : List TId) (acc : Led × Bool) :
+    (ids.foldl (rollbackStep h) acc).1.getS (.txRec t) = acc.1.getS (.txRec t) ∨
+    (TId.single t ∈ ids ∧ (ids.foldl (rollbackStep h) acc).1.getS (.txRec t) = some (.trec { height := h, status := .beginRollback })) := by
+  induction ids generalizing acc with
+  | nil => left; rfl
+  | cons id rest ih =>
+    simp only [List.foldl_cons]
+    have hstep : (rollbackStep h acc id).1.getS (.txRec t) = acc.1.getS (.txRec t) ∨
+        (id = TId.single t ∧ (rollbackStep h acc id).1.getS (.txRec t) = some (.trec { height := h, status := .beginRollback })) := by
+      by_cases hid : id = TId.single t
+      · subst hid
+        unfold rollbackStep
+        by_cases hb : acc.2 = true
+        · left; simp [hb]
+        · right; refine ⟨rfl, ?_⟩; simp [hb, Led.getS_setS]
+      · left; exact Bxh.Props.C06.rollbackStep_other h acc id t hid
+    rcases ih (rollbackStep h acc id) with h1 | ⟨hm, h1⟩
+    · rcases hstep with h2 | ⟨hid, h2⟩
+      · left; rw [h1, h2]
+      · right; exact ⟨by rw [hid]; exact List.mem_cons_self .., by rw [h1, h2]⟩
+    · right; exact ⟨List.mem_cons_of_mem _ hm, h1⟩
+
+
+/-- **a block that accepts no receipt for an open transaction keeps it open, listed at most once and only under the deadline its
+record names** — the record stays as it is or, when the block's height is that deadline, the timeout step moves it to
+BEGIN_ROLLBACK (recorded under this height; nothing of it is on a list still to come) -/
+theorem C04_block_open_stays (cfg : Cfg) (n : Node) (txs : List (Tx × Bool)) (t : TxId) (rec0 : Rec)
+    (hO : OpenInv { cfg := cfg, cache := n.cache, height := 0, txIndex := 0 } n.led n.height t rec0)
+    (hnd : ∀ p ∈ txs, ∀ sg args, p.1 ≠ .bvm sg "interchain" "DeleteInterchain" args)
+    (hsame : (applyTxs cfg n.cache (n.height + 1) n.led txs).led.getS (.txRec t) = some (.trec rec0)) :
+    ∃ rec', OpenInv { cfg := cfg, cache := (execBlock cfg n txs).1.cache, height := 0, txIndex := 0 } (execBlock cfg n txs).1.led
+        (execBlock cfg n txs).1.height t rec' ∧
+      (rec' = rec0 ∨ (rec0.height = n.height + 1 ∧ rec' = { height := n.height + 1, status := .beginRollback })) := by
+  let e0 : Env := { cfg := cfg, cache := n.cache, height := 0, txIndex := 0 }
+  have conv : ∀ {l' : Led} (idx : Nat), PairInv e0 l' t → PairInv { cfg := cfg, cache := n.cache, height := n.height + 1, txIndex := idx } l' t :=
+    fun idx h => PairInv.conv (e1 := e0) (e2 := { cfg := cfg, cache := n.cache, height := n.height + 1, txIndex := idx }) rfl rfl h
+  have conv' : ∀ {l' : Led} (idx : Nat), PairInv { cfg := cfg, cache := n.cache, height := n.height + 1, txIndex := idx } l' t → PairInv e0 l' t :=
+    fun idx h => PairInv.conv (e1 := { cfg := cfg, cache := n.cache, height := n.height + 1, txIndex := idx }) (e2 := e0) rfl rfl h
+  have loopQ := applyTxs_zip_inv cfg n.cache (n.height + 1)
+    (fun tx => ∀ sg args, tx ≠ .bvm sg "interchain" "DeleteInterchain" args)
+    (fun l => PairInv e0 l t)
+    (fun tx rc => ∀ s i p, tx = .ibtp s i p → i.frm = some t.frm → i.to = some t.to → i.index = t.index → i.typ.isRequest = true → rc.ok = false)
+    (fun idx l tx inv hg hp => conv' idx (applyTx_known_rec _ l tx inv t (conv idx hp) hg).1)
+    (fun idx l tx inv _ hp s i p htx hfr hto hix hreq => C04_known_request_refused _ l tx inv t (conv idx hp) s i p htx hfr hto hix hreq)
+    n.led hO.pair txs hnd
+  obtain ⟨hPend, hQ⟩ := loopQ
+  have hcntA : ∀ d, listCount (applyTxs cfg n.cache (n.height + 1) n.led txs).led d t ≤ listCount n.led d t :=
+    fun d => applyTxs_count cfg n.cache (n.height + 1) n.led txs d t
+  generalize hAA : applyTxs cfg n.cache (n.height + 1) n.led txs = A at hsame hPend hQ hcntA
+  have hnoadd : ∀ d, (addsAt d (((txs.map (·.1)).zip A.rcpts).map (fun p => timeoutAct cfg A.led (n.height + 1) p.1 p.2))).count t = 0 := by
+    intro d
+    rw [List.count_eq_zero]
+    intro h1
+    have hm := mem_addsAt h1
+    obtain ⟨pr', hpr', hact⟩ := List.mem_map.mp hm
+    obtain ⟨s', i', p', htx', hfr', hto', hix', hreq', hok'⟩ := timeoutAct_add hact
+    have := hQ pr' hpr' s' i' p' htx' hfr' hto' hix' hreq'
+    rw [this] at hok'
+    cases hok'
+  -- after the bookkeeping
+  have hcnt2 : ∀ d, listCount (setTimeoutList cfg A.led (n.height + 1) (txs.map (·.1)) A.rcpts) d t ≤ listCount n.led d t := by
+    intro d
+    have := setTimeoutList_count_le cfg A.led (n.height + 1) (txs.map (·.1)) A.rcpts d t
+    rw [hnoadd d] at this
+    exact Nat.le_trans this (hcntA d)
+  have hrec2 : (setTimeoutList cfg A.led (n.height + 1) (txs.map (·.1)) A.rcpts).getS (.txRec t) = some (.trec rec0) := by
+    rw [setTimeoutList_getS _ _ _ _ _ _ (by intro x e; cases e)]; exact hsame
+  -- the end of the block
+  have hend : ∀ k, (execBlock cfg n txs).1.led.getS k =
+      (setTimeoutRollback (setTimeoutList cfg A.led (n.height + 1) (txs.map (·.1)) A.rcpts) (n.height + 1)).getS k := by
+    intro k
+    unfold execBlock
+    simp only
+    rw [hAA]
+    exact getS_of_store (finalise_store _) k
+  have hcntE : ∀ d, listCount (execBlock cfg n txs).1.led d t ≤ listCount n.led d t := by
+    intro d
+    rw [listCount_congr (hend _), listCount_congr (setTimeoutRollback_frame _ _ _ (by intro x e; cases e) (by intro x e; cases e))]
+    exact hcnt2 d
+  have hpairE : PairInv { cfg := cfg, cache := (execBlock cfg n txs).1.cache, height := 0, txIndex := 0 } (execBlock cfg n txs).1.led t := by
+    refine ⟨?_, ?_, hPend.loc⟩
+    · refine hPend.ordered.mono (fun c sid => ?_)
+      rw [hend, setTimeoutRollback_frame _ _ _ (by intro x e; cases e) (by intro x e; cases e),
+        setTimeoutList_getS _ _ _ _ _ _ (by intro x e; cases e)]
+    · have := C02_timeout_steps_keep_counters cfg A.led (n.height + 1) (txs.map (·.1)) A.rcpts t.frm t.to
+      rw [reqCounter_congr (fun x => hend _) t.frm t.to, this]
+      exact hPend.bound
+  have honlyE : ∀ d, n.height < d → listedAt (execBlock cfg n txs).1.led d t → d = rec0.height := by
+    intro d hd hl
+    apply hO.only d hd
+    rw [listedAt_iff_count] at *
+    exact Nat.lt_of_lt_of_le hl (hcntE d)
+  have hrecE := rollbackFold_rec_cases (n.height + 1) t
+    (getTimeoutList (setTimeoutList cfg A.led (n.height + 1) (txs.map (·.1)) A.rcpts) (n.height + 1))
+    (setTimeoutList cfg A.led (n.height + 1) (txs.map (·.1)) A.rcpts, false)
+  rcases hrecE with hu | ⟨hm, hset⟩
+  · refine ⟨rec0, ⟨hpairE, ?_, ?_, ?_⟩, Or.inl rfl⟩
+    · rw [hend]; unfold setTimeoutRollback; rw [hu]; exact hrec2
+    · intro d hd; rw [execBlock_height] at hd; exact Nat.le_trans (hcntE d) (hO.cnt d (by omega))
+    · intro d hd hl; rw [execBlock_height] at hd; exact honlyE d (by omega) hl
+  · -- the timeout step fired: the block's height is the recorded deadline
+    have hlisted : listedAt n.led (n.height + 1) t := by
+      have h1 := listedAt_of_mem_getTimeoutList hm
+      rw [listedAt_iff_count] at *
+      exact Nat.lt_of_lt_of_le h1 (hcnt2 _)
+    have hdl : n.height + 1 = rec0.height := hO.only _ (Nat.lt_succ_self _) hlisted
+    refine ⟨{ height := n.height + 1, status := .beginRollback }, ⟨hpairE, ?_, ?_, ?_⟩, Or.inr ⟨hdl.symm, rfl⟩⟩
+    · rw [hend]; unfold setTimeoutRollback; exact hset
+    · intro d hd; rw [execBlock_height] at hd; exact Nat.le_trans (hcntE d) (hO.cnt d (by omega))
+    · intro d hd hl
+      rw [execBlock_height] at hd
+      have := honlyE d (by omega) hl
+      omega
+
+
+/-- the bookkeeping of the block is not abandoned -/
+def NoAbort (cfg : Cfg) (n : Node) (txs : List (Tx × Bool)) : Prop :=
+  (((txs.map (·.1)).zip (applyTxs cfg n.cache (n.height + 1) n.led txs).rcpts).map
+    (fun p => timeoutAct cfg (applyTxs cfg n.cache (n.height + 1) n.led txs).led (n.height + 1) p.1 p.2)).contains .abort = false
+
+/-- after the transactions of a block the record of an open transaction is what it was, or what it was with a final status -/
+theorem block_record_dichotomy (cfg : Cfg) (n : Node) (txs : List (Tx × Bool)) (t : TxId) (rec0 : Rec)
+    (hO : OpenInv { cfg := cfg, cache := n.cache, height := 0, txIndex := 0 } n.led n.height t rec0)
+    (hnd : ∀ p ∈ txs, ∀ sg args, p.1 ≠ .bvm sg "interchain" "DeleteInterchain" args) :
+    (applyTxs cfg n.cache (n.height + 1) n.led txs).led.getS (.txRec t) = some (.trec rec0) ∨
+    ∃ st', st'.isFinal = true ∧ (applyTxs cfg n.cache (n.height + 1) n.led txs).led.getS (.txRec t) = some (.trec { rec0 with status := st' }) := by
+  let e0 : Env := { cfg := cfg, cache := n.cache, height := 0, txIndex := 0 }
+  have conv : ∀ {l' : Led} (idx : Nat), PairInv e0 l' t → PairInv { cfg := cfg, cache := n.cache, height := n.height + 1, txIndex := idx } l' t :=
+    fun idx h => PairInv.conv (e1 := e0) (e2 := { cfg := cfg, cache := n.cache, height := n.height + 1, txIndex := idx }) rfl rfl h
+  have conv' : ∀ {l' : Led} (idx : Nat), PairInv { cfg := cfg, cache := n.cache, height := n.height + 1, txIndex := idx } l' t → PairInv e0 l' t :=
+    fun idx h => PairInv.conv (e1 := { cfg := cfg, cache := n.cache, height := n.height + 1, txIndex := idx }) (e2 := e0) rfl rfl h
+  have loopE := applyTxs_zip_exists cfg n.cache (n.height + 1)
+    (fun tx => ∀ sg args, tx ≠ .bvm sg "interchain" "DeleteInterchain" args)
+    (fun l => PairInv e0 l t ∧ l.getS (.txRec t) = some (.trec rec0))
+    (fun l => PairInv e0 l t ∧ ∃ st', st'.isFinal = true ∧ l.getS (.txRec t) = some (.trec { rec0 with status := st' }))
+    (fun _ _ => True)
+    (by
+      intro idx l tx inv hg ⟨hp, hr⟩
+      obtain ⟨hp', hch⟩ := applyTx_known_rec _ l tx inv t (conv idx hp) hg
+      rcases hch with e | ⟨s, i, p, htx, hresp, hfr, hto, hix, rec, st', g1, g2, g3⟩
+      · left; exact ⟨conv' idx hp', by rw [e]; exact hr⟩
+      · right
+        rw [hr] at g1
+        cases g1
+        exact ⟨⟨conv' idx hp', st', receipt_step_final _ _ _ hresp g2, g3⟩, trivial⟩)
+    (by
+      intro idx l tx inv hg ⟨hp, st', hf', hr⟩
+      obtain ⟨hp', hch⟩ := applyTx_known_rec _ l tx inv t (conv idx hp) hg
+      rcases hch with e | ⟨s, i, p, htx, hresp, hfr, hto, hix, rec, st'', g1, g2, g3⟩
+      · exact ⟨conv' idx hp', st', hf', by rw [e]; exact hr⟩
+      · exfalso
+        rw [hr] at g1
+        cases g1
+        rw [C04_final_absorbing_step _ _ hf'] at g2
+        cases g2)
+    n.led ⟨hO.pair, hO.recd⟩ txs hnd
+  rcases loopE with ⟨_, h⟩ | ⟨⟨_, st', hf', h⟩, _⟩
+  · exact Or.inl h
+  · exact Or.inr ⟨st', hf', h⟩
+
+/-- a transaction of a local, index-checked pair that has not been accepted yet: the pair's counter is still below its index and it
+has no record -/
+structure NewInv (env : Env) (l : Led) (t : TxId) : Prop where
+  ordered : OrderedDst env l t.to
+  loc : t.frm.bxh = t.to.bxh
+  ahead : reqCounter l t.frm t.to < t.index
+  norec : l.getS (.txRec t) = none
+
+/-- a request naming `t` that `HandleIBTP` accepts from a ledger on which `t` is new creates the record of `t` and moves the pair's
+counter to its index -/
+theorem handleIBTP_accepts_new {env : Env} {l : Led} {i : Ibtp} {r : Led × String} {t : TxId}
+    (hN : NewInv env l t) (h : handleIBTP env l i = .ok r) (s : String) (p : ProofKind) (hrf : reqFor t (.ibtp s i p) = true)
+    (hg : i.group = none) :
+    PairInv env r.1 t ∧ ∃ st, r.1.getS (.txRec t) = some (.trec { height := recordHeight env.height (toU64 i.timeout), status := st }) ∧
+      st.isFinal = false := by
+  obtain ⟨_, _, _, e0, hreq, hfr, hto, hix⟩ := reqFor_elim hrf
+  cases e0
+  obtain ⟨ck, hck⟩ := handleIBTP_ok_checked h
+  obtain ⟨e1, e2⟩ := checkIBTP_ends hck
+  have hsrc : ck.src = t.frm := by rw [hfr] at e1; exact (Option.some.inj e1).symm
+  have hdst : ck.dst = t.to := by rw [hto] at e2; exact (Option.some.inj e2).symm
+  have hloc : ck.src.bxh = ck.dst.bxh := by rw [hsrc, hdst]; exact hN.loc
+  have hn : ck.notice = false := checkIBTP_local_no_notice hck hloc
+  have hnb : ck.isBatch = false := orderedDst_not_batch (by rw [hdst]; exact hN.ordered) hck hreq hn
+  have hidx := C02_accept_needs_next_index env l i ck hck hreq hn hnb
+  have hrec := handleIBTP_new_record hck h hreq hloc hg
+  have hid : ({ frm := ck.src, to := ck.dst, index := i.index } : TxId) = t := by rw [hsrc, hdst, hix]
+  rw [hid] at hrec
+  have hctr := handleIBTP_reqCounter hck h t.frm t.to
+  rw [if_pos ⟨by simp [hreq, hn], hsrc.symm, hdst.symm⟩] at hctr
+  refine ⟨⟨hN.ordered.mono (fun c sid => handleIBTP_svc_frame h c sid), ?_, hN.loc⟩, _, hrec, ?_⟩
+  · rw [hctr]
+    unfold reqCounter
+    rw [hsrc, hdst] at hidx
+    omega
+  · cases ck.targetErr <;> rfl
+
+/-- … and an IBTP that is no request naming `t` leaves `t` new -/
+theorem handleIBTP_keeps_new {env : Env} {l : Led} {i : Ibtp} {r : Led × String} {t : TxId}
+    (hN : NewInv env l t) (h : handleIBTP env l i = .ok r) (s : String) (p : ProofKind) (hrf : reqFor t (.ibtp s i p) = false) :
+    NewInv env r.1 t := by
+  obtain ⟨ck, hck⟩ := handleIBTP_ok_checked h
+  obtain ⟨e1, e2⟩ := checkIBTP_ends hck
+  refine ⟨hN.ordered.mono (fun c sid => handleIBTP_svc_frame h c sid), hN.loc, ?_, ?_⟩
+  · have hctr := handleIBTP_reqCounter hck h t.frm t.to
+    split at hctr
+    · rename_i hc
+      obtain ⟨hc1, hc2, hc3⟩ := hc
+      simp only [Bool.and_eq_true, Bool.not_eq_true'] at hc1
+      have hidx := C02_accept_needs_next_index env l i ck hck hc1.1 hc1.2
+        (orderedDst_not_batch (by rw [← hc3]; exact hN.ordered) hck hc1.1 hc1.2)
+      rw [← hc2, ← hc3] at hidx
+      have hne : i.index ≠ t.index := by
+        intro e
+        have : reqFor t (.ibtp s i p) = true := reqFor_of hc1.1 (by rw [e1, hc2]) (by rw [e2, hc3]) e
+        rw [this] at hrf; cases hrf
+      have := hN.ahead
+      unfold reqCounter at this
+      rw [hctr]
+      unfold reqCounter
+      omega
+    · rw [hctr]; exact hN.ahead
+  · rcases handleIBTP_rec hck h t with e | ⟨hreq, ht, _⟩ | ⟨_, st, _, hs, _, _⟩
+    · rw [e]; exact hN.norec
+    · exfalso
+      have : reqFor t (.ibtp s i p) = true := reqFor_of hreq (by rw [e1, ht]) (by rw [e2, ht]) (by rw [ht])
+      rw [this] at hrf; cases hrf
+    · exfalso
+      unfold recStatus at hs
+      rw [hN.norec] at hs
+      cases hs
+
+theorem NewInv.conv {l : Led} {t : TxId} {e1 e2 : Env} (hc : e2.cache = e1.cache) (hb : e2.cfg.bxh = e1.cfg.bxh)
+    (h : NewInv e1 l t) : NewInv e2 l t := ⟨orderedDst_env hc hb h.ordered, h.loc, h.ahead, h.norec⟩
+
+/-- **one transaction of a block and a new transaction `t`**: `t` stays new and the transaction is no accepted request for it — or
+the transaction is the request naming `t`, and `t` now has its record (not final, deadline from this block's height and the request's
+timeout) and its pair's counter has reached its index -/
+theorem applyTx_new_step (env : Env) (l : Led) (tx : Tx) (inv : Option String) (t : TxId)
+    (hN : NewInv env l t) (hnd : ∀ sg args, tx ≠ .bvm sg "interchain" "DeleteInterchain" args)
+    (hng : ∀ s i p, tx = .ibtp s i p → reqFor t tx = true → i.group = none) :
+    (NewInv env (applyTx env l tx inv).1 t ∧ reqOk t (tx, (applyTx env l tx inv).2.rcpt) = false) ∨
+    (PairInv env (applyTx env l tx inv).1 t ∧ ∃ s i p st, tx = .ibtp s i p ∧ reqFor t tx = true ∧ st.isFinal = false ∧
+      (applyTx env l tx inv).1.getS (.txRec t) = some (.trec { height := recordHeight env.height (toU64 i.timeout), status := st })) := by
+  have hN0 : NewInv env (txStart l) t := ⟨hN.ordered.mono (fun _ _ => rfl), hN.loc, hN.ahead, hN.norec⟩
+  have congrN : ∀ {l' : Led}, (∀ k, l'.getS k = (txStart l).getS k) → NewInv env l' t := by
+    intro l' hk
+    exact ⟨hN0.ordered.mono (fun c sid => hk _), hN.loc, by rw [reqCounter_congr (fun x => hk _)]; exact hN0.ahead, by rw [hk]; exact hN0.norec⟩
+  by_cases hro : reqOk t (tx, (applyTx env l tx inv).2.rcpt) = true
+  · -- an accepted request naming `t`
+    right
+    simp only [reqOk, Bool.and_eq_true] at hro
+    obtain ⟨s, i, p, htx, _⟩ := reqFor_elim hro.1
+    subst htx
+    obtain ⟨r, hh, hk⟩ := applyTx_ok_effect env l s i p inv hro.2
+    obtain ⟨hP, st, hrec, hnf⟩ := handleIBTP_accepts_new hN0 hh s p hro.1 (hng s i p rfl hro.1)
+    refine ⟨⟨hP.ordered.mono (fun c sid => hk _), by rw [reqCounter_congr (fun x => hk _)]; exact hP.bound, hP.loc⟩,
+      s, i, p, st, rfl, hro.1, hnf, by rw [hk]; exact hrec⟩
+  · have hro' : reqOk t (tx, (applyTx env l tx inv).2.rcpt) = false := by simpa using hro
+    cases applyTx_effect env l tx inv with
+    | nothing h => exact Or.inl ⟨congrN h, hro'⟩
+    | bvm sg c m args r h1 h2 h3 =>
+      left
+      refine ⟨⟨hN0.ordered.mono (fun cc sid => by rw [h3, applyBvm_frame h2 _ (by intro x e; cases e)]), hN.loc, ?_, ?_⟩, hro'⟩
+      · have hn : ¬ (c = "interchain" ∧ m = "DeleteInterchain") := by
+          rintro ⟨rfl, rfl⟩; exact hnd sg args h1
+        rw [reqCounter_congr (fun x => h3 _), reqCounter_congr (fun x => applyBvm_ic_frame h2 hn x)]
+        exact hN0.ahead
+      · rw [h3, applyBvm_frame h2 _ (by intro x e; cases e)]; exact hN0.norec
+    | ibtp s i p env' r h1 h2 h3 h4 h5 h6 =>
+      have hN' : NewInv env' (txStart l) t := hN0.conv h2 h3
+      by_cases hrf : reqFor t tx = true
+      · -- accepted with its effects although the receipt is no success (the audit event failed after everything was written)
+        right
+        subst h1
+        obtain ⟨hP, st, hrec, hnf⟩ := handleIBTP_accepts_new hN' h5 s p hrf (hng s i p rfl hrf)
+        have hP2 : PairInv env r.1 t := PairInv.conv (e1 := env') (e2 := env) h2.symm h3.symm hP
+        refine ⟨⟨hP2.ordered.mono (fun c sid => h6 _), by rw [reqCounter_congr (fun x => h6 _)]; exact hP2.bound, hP2.loc⟩,
+          s, i, p, st, rfl, hrf, hnf, by rw [h6, hrec, h4]⟩
+      · left
+        subst h1
+        have hk := handleIBTP_keeps_new hN' h5 s p (by simpa using hrf)
+        have hk2 : NewInv env r.1 t := hk.conv h2.symm h3.symm
+        exact ⟨⟨hk2.ordered.mono (fun c sid => h6 _), hk2.loc, by rw [reqCounter_congr (fun x => h6 _)]; exact hk2.ahead,
+          by rw [h6]; exact hk2.norec⟩, hro'⟩
+
+
+theorem addsAt_cons (d : Nat) (a : TOAct) (as : List TOAct) :
+    addsAt d (a :: as) = (match a with | .add th id => if th = d then [id] else [] | _ => []) ++ addsAt d as := by
+  cases a with
+  | add th id => by_cases hd : th = d <;> simp [addsAt, hd]
+  | skip => simp [addsAt]
+  | remove _ _ => simp [addsAt]
+  | abort => simp [addsAt]
+
+/-- the additions of `t` the bookkeeping makes for one deadline are at most the accepted requests naming `t` among the block's pairs -/
+theorem count_adds_le_countP (cfg : Cfg) (l : Led) (h d : Nat) (t : TxId) (zs : List (Tx × Rcpt)) :
+    (addsAt d (zs.map (fun p => timeoutAct cfg l h p.1 p.2))).count t ≤ zs.countP (reqOk t) := by
+  induction zs with
+  | nil => simp [addsAt]
+  | cons p rest ih =>
+    rw [List.map_cons, addsAt_cons, List.count_append, List.countP_cons]
+    have hhead : (match timeoutAct cfg l h p.1 p.2 with | .add th id => if th = d then [id] else [] | _ => []).count t ≤
+        (if reqOk t p = true then 1 else 0) := by
+      cases hact : timeoutAct cfg l h p.1 p.2 with
+      | add th id =>
+        simp only
+        by_cases hd : th = d
+        · rw [if_pos hd]
+          by_cases hid : id = t
+          · subst hid
+            obtain ⟨s, i, pk, htx, hfr, hto, hix, hreq, hok⟩ := timeoutAct_add hact
+            have : reqOk id p = true := by
+              unfold reqOk; rw [htx, reqFor_of hreq hfr hto hix, hok]; rfl
+            rw [if_pos this]; simp
+          · have : [id].count t = 0 := by rw [List.count_eq_zero]; intro hm; simp at hm; exact hid hm.symm
+            rw [this]; exact Nat.zero_le _
+        · rw [if_neg hd]; simp
+      | skip => simp
+      | remove _ _ => simp
+      | abort => simp
+    omega
+
+/-- an id the block takes off the list of `d`, on a list that holds it at most once after the block's additions, is not on that list
+after the bookkeeping -/
+theorem listAfter_unlisted' (v : Option Val) (A R : List TxId) (lst : List (Option TId)) (t : TxId)
+    (hR : t ∈ R) (hc : (curList v).count (some (TId.single t)) + A.count t ≤ 1)
+    (e : listAfter v A R = some (.tlist lst)) : some (TId.single t) ∉ lst := by
+  unfold listAfter at e
+  simp only at e
+  have hR' : R ≠ [] := by intro h; rw [h] at hR; cases hR
+  rw [if_neg hR'] at e
+  cases e
+  intro hm
+  refine foldl_goRemove_removes R _ t ?_ hR (normList_mem_single _ t hm)
+  by_cases hAe : A = []
+  · rw [if_pos hAe]; omega
+  · rw [if_neg hAe]
+    show List.count (some (TId.single t)) (if curList v == [none] then A.map (fun t => some (TId.single t))
+      else curList v ++ A.map (fun t => some (TId.single t))) ≤ 1
+    by_cases hn : (curList v == [none]) = true
+    · rw [if_pos hn, count_map_single]; omega
+    · rw [if_neg hn, List.count_append, count_map_single]; omega
+
+
+/-- the accepted requests naming `t` among the pairs so far: at most one, and its timeout is the one the record's deadline was computed from -/
+def Acc (h : Nat) (t : TxId) (zs : List (Tx × Rcpt)) (rec : Rec) : Prop :=
+  zs.countP (reqOk t) ≤ 1 ∧
+  ∀ p ∈ zs, reqOk t p = true → ∀ s i pk, p.1 = .ibtp s i pk → rec.height = recordHeight h (toU64 i.timeout)
+
+/-- a receipt transaction for `t` (its own receipt never carries the begin-failure mark) -/
+def RespOf (t : TxId) (p : Tx × Rcpt) : Prop :=
+  ∃ s i pk, p.1 = .ibtp s i pk ∧ i.typ.isResponse = true ∧ i.frm = some t.frm ∧ i.to = some t.to ∧ i.index = t.index ∧ p.2.txStatus = 0
+
+/-- what the serial loop of block `n.height + 1` knows of a transaction that was new when the block started, in terms of the ledger
+and of the (transaction, receipt) pairs so far: still new and no request for it accepted; or open, begun by the one accepted request;
+or final, by a receipt of this block -/
+def FreshPhase (cfg : Cfg) (n : Node) (t : TxId) (l : Led) (zs : List (Tx × Rcpt)) : Prop :=
+  (NewInv { cfg := cfg, cache := n.cache, height := 0, txIndex := 0 } l t ∧ zs.countP (reqOk t) = 0) ∨
+  (∃ rec, PairInv { cfg := cfg, cache := n.cache, height := 0, txIndex := 0 } l t ∧ l.getS (.txRec t) = some (.trec rec) ∧
+      rec.status.isFinal = false ∧ Acc (n.height + 1) t zs rec) ∨
+  (∃ rec st, PairInv { cfg := cfg, cache := n.cache, height := 0, txIndex := 0 } l t ∧
+      l.getS (.txRec t) = some (.trec { rec with status := st }) ∧ st.isFinal = true ∧ Acc (n.height + 1) t zs rec ∧ ∃ p ∈ zs, RespOf t p)
+
+theorem known_reqOk_false (env : Env) (l : Led) (tx : Tx) (inv : Option String) (t : TxId) (hI : PairInv env l t) :
+    reqOk t (tx, (applyTx env l tx inv).2.rcpt) = false := by
+  unfold reqOk
+  by_cases hrf : reqFor t tx = true
+  · obtain ⟨s, i, p, htx, hreq, hfr, hto, hix⟩ := reqFor_elim hrf
+    have := C04_known_request_refused env l tx inv t hI s i p htx hfr hto hix hreq
+    simp [this]
+  · simp [hrf]
+
+theorem acc_append_false {h : Nat} {t : TxId} {zs : List (Tx × Rcpt)} {rec : Rec} {p : Tx × Rcpt}
+    (hA : Acc h t zs rec) (hp : reqOk t p = false) : Acc h t (zs ++ [p]) rec := by
+  obtain ⟨h1, h2⟩ := hA
+  refine ⟨by rw [List.countP_append]; simp [hp]; exact h1, ?_⟩
+  intro q hq hok
+  rcases List.mem_append.mp hq with h | h
+  · exact h2 q h hok
+  · simp at h; subst h; rw [hp] at hok; cases hok
+
+theorem freshPhase_step (cfg : Cfg) (n : Node) (t : TxId) (idx : Nat) (l : Led) (zs : List (Tx × Rcpt)) (tx : Tx) (inv : Option String)
+    (hnd : ∀ sg args, tx ≠ .bvm sg "interchain" "DeleteInterchain" args)
+    (hng : ∀ s i p, tx = .ibtp s i p → reqFor t tx = true → i.group = none)
+    (hΦ : FreshPhase cfg n t l zs) :
+    FreshPhase cfg n t (applyTx { cfg := cfg, cache := n.cache, height := n.height + 1, txIndex := idx } l tx inv).1
+      (zs ++ [(tx, (applyTx { cfg := cfg, cache := n.cache, height := n.height + 1, txIndex := idx } l tx inv).2.rcpt)]) := by
+  let e0 : Env := { cfg := cfg, cache := n.cache, height := 0, txIndex := 0 }
+  let eb : Env := { cfg := cfg, cache := n.cache, height := n.height + 1, txIndex := idx }
+  have pc : ∀ {l' : Led}, PairInv e0 l' t → PairInv eb l' t := fun h => PairInv.conv (e1 := e0) (e2 := eb) rfl rfl h
+  have pc' : ∀ {l' : Led}, PairInv eb l' t → PairInv e0 l' t := fun h => PairInv.conv (e1 := eb) (e2 := e0) rfl rfl h
+  rcases hΦ with ⟨hN, hc⟩ | ⟨rec, hP, hr, hnf, hA⟩ | ⟨rec, st, hP, hr, hf, hA, hresp⟩
+  · -- new
+    have hNb : NewInv eb l t := NewInv.conv (e1 := e0) (e2 := eb) rfl rfl hN
+    rcases applyTx_new_step eb l tx inv t hNb hnd hng with ⟨hN', hro⟩ | ⟨hP', s, i, p, st, htx, hrf, hnf, hrec⟩
+    · left
+      exact ⟨NewInv.conv (e1 := eb) (e2 := e0) rfl rfl hN', by rw [List.countP_append, hc]; simp; exact hro⟩
+    · right; left
+      refine ⟨_, pc' hP', hrec, hnf, ?_, ?_⟩
+      · rw [List.countP_append, hc]; simp; split <;> omega
+      · intro q hq hok s' i' pk' hq1
+        rcases List.mem_append.mp hq with h | h
+        · exfalso
+          have := List.countP_eq_zero.mp hc q h
+          exact this hok
+        · simp at h; subst h
+          simp only at hq1
+          rw [htx] at hq1
+          cases hq1
+          rfl
+  · -- open
+    obtain ⟨hP', hch⟩ := applyTx_known_rec eb l tx inv t (pc hP) hnd
+    have hro := known_reqOk_false eb l tx inv t (pc hP)
+    rcases hch with e | ⟨s, i, p, htx, hrsp, hfr, hto, hix, rec', st', g1, g2, g3⟩
+    · right; left
+      exact ⟨rec, pc' hP', by rw [e]; exact hr, hnf, acc_append_false hA hro⟩
+    · right; right
+      rw [hr] at g1
+      cases g1
+      refine ⟨rec, st', pc' hP', g3, receipt_step_final _ _ _ hrsp g2, acc_append_false hA hro, _, List.mem_append_right _ (List.mem_singleton.mpr rfl), ?_⟩
+      exact ⟨s, i, p, htx, hrsp, hfr, hto, hix, by simp only; rw [htx]; exact applyTx_response_txStatus eb l s i p inv hrsp⟩
+  · -- final
+    obtain ⟨hP', hch⟩ := applyTx_known_rec eb l tx inv t (pc hP) hnd
+    have hro := known_reqOk_false eb l tx inv t (pc hP)
+    rcases hch with e | ⟨s, i, p, htx, hrsp, hfr, hto, hix, rec', st', g1, g2, g3⟩
+    · right; right
+      obtain ⟨q, hq, hR⟩ := hresp
+      exact ⟨rec, st, pc' hP', by rw [e]; exact hr, hf, acc_append_false hA hro, q, List.mem_append_left _ hq, hR⟩
+    · exfalso
+      rw [hr] at g1
+      cases g1
+      rw [C04_final_absorbing_step _ _ hf] at g2
+      cases g2
+
+
+/-- **the block in which a new transaction may be accepted**: from a transaction that is new (no record, the pair's counter below its
+index, on no list still to come) every block leads to one of three states — still new and unlisted; open (`OpenInv`: begun by the one
+accepted request of this block, listed at most once and only under the deadline that request and this height give); or final
+already (request and receipt in one block) and on no list still to come -/
+theorem C04_block_fresh_step (cfg : Cfg) (n : Node) (txs : List (Tx × Bool)) (t : TxId)
+    (hN : NewInv { cfg := cfg, cache := n.cache, height := 0, txIndex := 0 } n.led t)
+    (hul : ∀ d, n.height < d → listCount n.led d t = 0)
+    (hdst : (t.to.chain == cfg.bxh) = false)
+    (hnd : ∀ p ∈ txs, ∀ sg args, p.1 ≠ .bvm sg "interchain" "DeleteInterchain" args)
+    (hng : ∀ p ∈ txs, ∀ s i pk, p.1 = .ibtp s i pk → reqFor t p.1 = true → i.group = none)
+    (hna : NoAbort cfg n txs) :
+    (NewInv { cfg := cfg, cache := (execBlock cfg n txs).1.cache, height := 0, txIndex := 0 } (execBlock cfg n txs).1.led t ∧
+      ∀ d, (execBlock cfg n txs).1.height < d → listCount (execBlock cfg n txs).1.led d t = 0) ∨
+    (∃ rec, OpenInv { cfg := cfg, cache := (execBlock cfg n txs).1.cache, height := 0, txIndex := 0 } (execBlock cfg n txs).1.led
+      (execBlock cfg n txs).1.height t rec ∧ rec.status.isFinal = false) ∨
+    (∃ st, FinalInvL { cfg := cfg, cache := (execBlock cfg n txs).1.cache, height := 0, txIndex := 0 } (execBlock cfg n txs).1.led
+      (execBlock cfg n txs).1.height t st ∧ st.isFinal = true) := by
+  have hΦ := applyTxs_zip_fold cfg n.cache (n.height + 1)
+    (fun tx => (∀ sg args, tx ≠ .bvm sg "interchain" "DeleteInterchain" args) ∧ (∀ s i p, tx = .ibtp s i p → reqFor t tx = true → i.group = none))
+    (FreshPhase cfg n t)
+    (fun idx l zs tx inv hg h => freshPhase_step cfg n t idx l zs tx inv hg.1 hg.2 h)
+    n.led (Or.inl ⟨hN, rfl⟩) txs (fun p hp => ⟨hnd p hp, hng p hp⟩)
+  have hcA : ∀ d, n.height < d → listCount (applyTxs cfg n.cache (n.height + 1) n.led txs).led d t = 0 := by
+    intro d hd
+    have := applyTxs_count cfg n.cache (n.height + 1) n.led txs d t
+    rw [hul d hd] at this; omega
+  unfold NoAbort at hna
+  generalize hAA : applyTxs cfg n.cache (n.height + 1) n.led txs = A at hΦ hcA hna
+  generalize hzs : (txs.map (·.1)).zip A.rcpts = zs at hΦ hna
+  -- the bookkeeping
+  have hl2z : setTimeoutList cfg A.led (n.height + 1) (txs.map (·.1)) A.rcpts =
+      setTimeoutList cfg A.led (n.height + 1) (txs.map (·.1)) A.rcpts := rfl
+  have hcnt2 : ∀ d, n.height < d → listCount (setTimeoutList cfg A.led (n.height + 1) (txs.map (·.1)) A.rcpts) d t ≤
+      (addsAt d (zs.map (fun p => timeoutAct cfg A.led (n.height + 1) p.1 p.2))).count t := by
+    intro d hd
+    have := setTimeoutList_count_le cfg A.led (n.height + 1) (txs.map (·.1)) A.rcpts d t
+    rw [hcA d hd, hzs] at this
+    omega
+  have hend : ∀ k, (execBlock cfg n txs).1.led.getS k =
+      (setTimeoutRollback (setTimeoutList cfg A.led (n.height + 1) (txs.map (·.1)) A.rcpts) (n.height + 1)).getS k := by
+    intro k
+    unfold execBlock
+    simp only
+    rw [hAA]
+    exact getS_of_store (finalise_store _) k
+  have hcntE : ∀ d, listCount (execBlock cfg n txs).1.led d t = listCount (setTimeoutList cfg A.led (n.height + 1) (txs.map (·.1)) A.rcpts) d t := by
+    intro d
+    rw [listCount_congr (hend _), listCount_congr (setTimeoutRollback_frame _ _ _ (by intro x e; cases e) (by intro x e; cases e))]
+  have hsvcE : ∀ c sid, (execBlock cfg n txs).1.led.getS (.svc c sid) = A.led.getS (.svc c sid) := by
+    intro c sid
+    rw [hend, setTimeoutRollback_frame _ _ _ (by intro x e; cases e) (by intro x e; cases e),
+      setTimeoutList_getS _ _ _ _ _ _ (by intro x e; cases e)]
+  have hctrE : reqCounter (execBlock cfg n txs).1.led t.frm t.to = reqCounter A.led t.frm t.to := by
+    have := C02_timeout_steps_keep_counters cfg A.led (n.height + 1) (txs.map (·.1)) A.rcpts t.frm t.to
+    rw [reqCounter_congr (fun x => hend _) t.frm t.to, this]
+  -- an addition of `t` comes from the accepted request, whose timeout gives the recorded deadline
+  have hadd : ∀ (rec : Rec), Acc (n.height + 1) t zs rec → ∀ d,
+      0 < (addsAt d (zs.map (fun p => timeoutAct cfg A.led (n.height + 1) p.1 p.2))).count t → d = rec.height ∧ n.height + 1 < d := by
+    intro rec hA d hpos
+    have hm := mem_addsAt (List.count_pos_iff.mp hpos)
+    obtain ⟨pr, hpr, hact⟩ := List.mem_map.mp hm
+    obtain ⟨s, i, p, htx, hfr, hto, hix, hreq, hok⟩ := timeoutAct_add hact
+    obtain ⟨s', i', p', htx', h1, h2, h3⟩ := timeoutAct_add_deadline hact
+    rw [htx] at htx'
+    cases htx'
+    have hro : reqOk t pr = true := by unfold reqOk; rw [htx, reqFor_of hreq hfr hto hix, hok]; rfl
+    have := hA.2 pr hpr hro s i p htx
+    rw [recordHeight_of_add _ _ h1 h2] at this
+    have hpos' : 0 < i.timeout.toNat := by omega
+    exact ⟨by omega, by omega⟩
+  rcases hΦ with ⟨hNA, hc⟩ | ⟨rec, hP, hr, hnf, hA⟩ | ⟨rec, st, hP, hr, hf, hA, q, hq, hR⟩
+  · -- still new
+    left
+    have hzero : ∀ d, n.height < d → listCount (setTimeoutList cfg A.led (n.height + 1) (txs.map (·.1)) A.rcpts) d t = 0 := by
+      intro d hd
+      have h1 := hcnt2 d hd
+      have h2 := count_adds_le_countP cfg A.led (n.height + 1) d t zs
+      omega
+    refine ⟨⟨hNA.ordered.mono hsvcE, hNA.loc, by rw [hctrE]; exact hNA.ahead, ?_⟩, ?_⟩
+    · rw [hend, Bxh.Props.C06.C06_not_listed_untouched _ _ t (fun hm => by
+        have := listedAt_iff_count.mp (listedAt_of_mem_getTimeoutList hm)
+        rw [hzero _ (Nat.lt_succ_self _)] at this; omega),
+        setTimeoutList_getS _ _ _ _ _ _ (by intro x e; cases e)]
+      exact hNA.norec
+    · intro d hd
+      rw [execBlock_height] at hd
+      rw [hcntE]; exact hzero d (by omega)
+  · -- open
+    right; left
+    have hle1 : ∀ d, n.height < d → listCount (setTimeoutList cfg A.led (n.height + 1) (txs.map (·.1)) A.rcpts) d t ≤ 1 := by
+      intro d hd
+      have h1 := hcnt2 d hd
+      have h2 := count_adds_le_countP cfg A.led (n.height + 1) d t zs
+      have := hA.1
+      omega
+    have honly : ∀ d, n.height < d → listedAt (setTimeoutList cfg A.led (n.height + 1) (txs.map (·.1)) A.rcpts) d t → d = rec.height ∧ n.height + 1 < d := by
+      intro d hd hl
+      have h1 := hcnt2 d hd
+      have := listedAt_iff_count.mp hl
+      exact hadd rec hA d (by omega)
+    refine ⟨rec, ⟨⟨hP.ordered.mono hsvcE, by rw [hctrE]; exact hP.bound, hP.loc⟩, ?_, ?_, ?_⟩, hnf⟩
+    · rw [hend, Bxh.Props.C06.C06_not_listed_untouched _ _ t (fun hm => by
+        have := (honly _ (Nat.lt_succ_self _) (listedAt_of_mem_getTimeoutList hm)).2
+        omega),
+        setTimeoutList_getS _ _ _ _ _ _ (by intro x e; cases e)]
+      exact hr
+    · intro d hd
+      rw [execBlock_height] at hd
+      rw [hcntE]; exact hle1 d (by omega)
+    · intro d hd hl
+      rw [execBlock_height] at hd
+      rw [listedAt_iff_count, hcntE, ← listedAt_iff_count] at hl
+      exact (honly d (by omega) hl).1
+  · -- final already
+    right; right
+    obtain ⟨s, i, pk, hq1, hrsp, hfr, hto, hix, hts⟩ := hR
+    have hrem : TOAct.remove rec.height t ∈ zs.map (fun p => timeoutAct cfg A.led (n.height + 1) p.1 p.2) := by
+      refine List.mem_map.mpr ⟨q, hq, ?_⟩
+      rw [hq1]
+      exact timeoutAct_receipt_final cfg A.led (n.height + 1) s i pk q.2 t { rec with status := st } hrsp hfr hto hix hts hdst hr hf
+    have hnl : ∀ d, n.height < d → ¬ listedAt (setTimeoutList cfg A.led (n.height + 1) (txs.map (·.1)) A.rcpts) d t := by
+      intro d hd hl
+      by_cases hdd : d = rec.height
+      · obtain ⟨lst, e, hm⟩ := hl
+        rw [setTimeoutList_at cfg A.led (n.height + 1) (txs.map (·.1)) A.rcpts d (by rw [hzs]; exact hna), hzs] at e
+        refine listAfter_unlisted' _ _ _ lst t (mem_remsAt_of (by rw [hdd]; exact hrem)) ?_ e hm
+        rw [curList_count, hcA d hd]
+        have h2 := count_adds_le_countP cfg A.led (n.height + 1) d t zs
+        have := hA.1
+        omega
+      · have h1 := hcnt2 d hd
+        have := listedAt_iff_count.mp hl
+        exact hdd (hadd rec hA d (by omega)).1
+    have hFA : FinalInv { cfg := cfg, cache := n.cache, height := 0, txIndex := 0 } A.led t st :=
+      ⟨hP.ordered, hP.bound, by unfold recStatus; rw [hr]⟩
+    refine ⟨st, ⟨?_, ?_⟩, hf⟩
+    · exact block_tail_final_stays cfg n txs t st (by rw [hAA]; exact hFA)
+        (by rw [hAA]; exact fun hm => hnl (n.height + 1) (Nat.lt_succ_self _) (listedAt_of_mem_getTimeoutList hm))
+    · intro d hd hl
+      rw [execBlock_height] at hd
+      apply hnl d (by omega)
+      rw [listedAt_iff_count, ← hcntE, ← listedAt_iff_count]
+      exact hl
+
+
+/-- what the block theorems know of a one-to-one transaction `t` of a local, index-checked pair at a block boundary: it is **fresh**
+(not accepted yet: no record, the pair's counter below its index, on no list still to come), **opened** (its record is not final; on
+the lists still to come it occurs at most once, only under its recorded deadline) or **final** (and on no list still to come) -/
+inductive Tracked (cfg : Cfg) (n : Node) (t : TxId) : Prop
+  | fresh : NewInv { cfg := cfg, cache := n.cache, height := 0, txIndex := 0 } n.led t →
+      (∀ d, n.height < d → listCount n.led d t = 0) → Tracked cfg n t
+  | opened (rec0 : Rec) : OpenInv { cfg := cfg, cache := n.cache, height := 0, txIndex := 0 } n.led n.height t rec0 →
+      rec0.status.isFinal = false → Tracked cfg n t
+  | final (st : Status) : FinalInvL { cfg := cfg, cache := n.cache, height := 0, txIndex := 0 } n.led n.height t st →
+      st.isFinal = true → Tracked cfg n t
+
+/-- what is assumed of a block: nobody calls the unguarded `DeleteInterchain` (an open finding of C17), no request naming `t`
+carries a Group (such a request begins a one-to-many child, which has no one-to-one record), the bookkeeping is not abandoned -/
+structure BlockOk (cfg : Cfg) (n : Node) (txs : List (Tx × Bool)) (t : TxId) : Prop where
+  nodelete : ∀ p ∈ txs, ∀ sg args, p.1 ≠ .bvm sg "interchain" "DeleteInterchain" args
+  nogroup : ∀ p ∈ txs, ∀ s i pk, p.1 = .ibtp s i pk → reqFor t p.1 = true → i.group = none
+  noabort : NoAbort cfg n txs
+
+/-- **every block keeps a tracked transaction tracked**: a fresh one stays fresh, is opened by the one request the block accepts for
+it, or is begun and answered in the same block; an open one stays open (possibly timed out: BEGIN_ROLLBACK) or becomes final and
+leaves its list in the same block; a final one stays final and unlisted -/
+theorem C04_block_tracked (cfg : Cfg) (n : Node) (txs : List (Tx × Bool)) (t : TxId)
+    (hT : Tracked cfg n t) (hdst : (t.to.chain == cfg.bxh) = false) (hB : BlockOk cfg n txs t) :
+    Tracked cfg (execBlock cfg n txs).1 t := by
+  obtain ⟨hnd, hng, hna⟩ := hB
+  cases hT with
+  | fresh hN hul =>
+    rcases C04_block_fresh_step cfg n txs t hN hul hdst hnd hng hna with ⟨h1, h2⟩ | ⟨rec, h1, h2⟩ | ⟨st, h1, h2⟩
+    · exact .fresh h1 h2
+    · exact .opened rec h1 h2
+    · exact .final st h1 h2
+  | final st hF hf => exact .final st (C04_block_final_stays_unlisted cfg n txs t st hF hf hnd) hf
+  | opened rec0 hO hopen =>
+    rcases block_record_dichotomy cfg n txs t rec0 hO hnd with hsame | ⟨st', hf', hfin⟩
+    · obtain ⟨rec', hO', hcases⟩ := C04_block_open_stays cfg n txs t rec0 hO hnd hsame
+      refine .opened rec' hO' ?_
+      rcases hcases with h | ⟨_, h⟩
+      · rw [h]; exact hopen
+      · rw [h]; rfl
+    · refine .final st' (C04_block_finalising_unlists cfg n txs t rec0 st' hO hopen hdst hnd hna ?_ hf') hf'
+      unfold recStatus; rw [hfin]
+
+/-- **… and so does every history of blocks** -/
+theorem C04_history_tracked (cfg : Cfg) (blocks : List (List (Tx × Bool))) (n : Node) (t : TxId)
+    (hT : Tracked cfg n t) (hdst : (t.to.chain == cfg.bxh) = false)
+    (hB : ∀ k (hk : k < blocks.length), BlockOk cfg (runBlocks cfg n (blocks.take k)) blocks[k] t) :
+    Tracked cfg (runBlocks cfg n blocks) t := by
+  induction blocks generalizing n with
+  | nil => exact hT
+  | cons b rest ih =>
+    have h0 := hB 0 (by simp)
+    simp only [List.take_zero, List.getElem_cons_zero] at h0
+    have hstep := C04_block_tracked cfg n b t hT hdst h0
+    have := ih (execBlock cfg n b).1 hstep
+      (fun k hk => by
+        have := hB (k + 1) (by simp; omega)
+        simpa [runBlocks] using this)
+    simpa [runBlocks] using this
+
+theorem runBlocks_append (cfg : Cfg) (n : Node) (b1 b2 : List (List (Tx × Bool))) :
+    runBlocks cfg n (b1 ++ b2) = runBlocks cfg (runBlocks cfg n b1) b2 := by
+  unfold runBlocks; rw [List.foldl_append]
+
+/-- **SUCCESS, FAILURE and ROLLBACK are final — from the first block on**: start from a node on which `t` is fresh (a new chain: no
+record, the pair's counter below the index, on no list), run any history of blocks (every block `BlockOk`): if `t`'s status is final
+after the first `k` blocks, it is the same status after all of them.  The timeout mechanism, receipts of any kind, replays, other
+transactions, fees that cannot be paid: nothing alters it -/
+theorem C04_final_is_forever (cfg : Cfg) (blocks : List (List (Tx × Bool))) (n : Node) (t : TxId) (st : Status) (k : Nat)
+    (hT : Tracked cfg n t) (hdst : (t.to.chain == cfg.bxh) = false)
+    (hB : ∀ j (hj : j < blocks.length), BlockOk cfg (runBlocks cfg n (blocks.take j)) blocks[j] t)
+    (hk : k ≤ blocks.length) (hst : recStatus (runBlocks cfg n (blocks.take k)).led t = some st) (hf : st.isFinal = true) :
+    recStatus (runBlocks cfg n blocks).led t = some st := by
+  have hTk : Tracked cfg (runBlocks cfg n (blocks.take k)) t := by
+    apply C04_history_tracked cfg (blocks.take k) n t hT hdst
+    intro j hj
+    have hj' : j < blocks.length := by simp at hj; omega
+    have := hB j hj'
+    simp only [List.take_take, List.getElem_take] at this ⊢
+    have e : min j k = j := by simp at hj; omega
+    rw [e]
+    exact this
+  have hsplit : blocks = blocks.take k ++ blocks.drop k := (List.take_append_drop k blocks).symm
+  have hrest : ∀ b ∈ blocks.drop k, ∀ p ∈ b, ∀ sg args, p.1 ≠ .bvm sg "interchain" "DeleteInterchain" args := by
+    intro b hb
+    obtain ⟨j, hj, e⟩ := List.getElem_of_mem hb
+    have hj' : k + j < blocks.length := by simp at hj; omega
+    have := (hB (k + j) hj').nodelete
+    rw [List.getElem_drop] at e
+    rw [← e]; exact this
+  cases hTk with
+  | fresh hN _ =>
+    exfalso; unfold recStatus at hst; rw [hN.norec] at hst; cases hst
+  | opened rec0 hO hopen =>
+    exfalso; unfold recStatus at hst; rw [hO.recd] at hst; cases hst; rw [hopen] at hf; cases hf
+  | final st' hF hf' =>
+    have : st' = st := by
+      have := hF.base.status
+      rw [hst] at this; cases this; rfl
+    subst this
+    rw [hsplit, runBlocks_append]
+    exact (C04_block_history_final_stays_unlisted cfg (blocks.drop k) _ t st' hF hf' hrest).1
+
+/-- non-vacuity: on a new chain (service records only) every transaction of an index-checked local pair is fresh — the starting point of
+`C04_final_is_forever` -/
+example (idx : Nat) (hidx : 0 < idx) :
+    let svc : Svc := { ordered := true, blacklist := [], available := true }
+    let s11 : SvcId := { bxh := "1356", chain := "c1", sid := "s1" }
+    let s21 : SvcId := { bxh := "1356", chain := "c2", sid := "s1" }
+    let n : Node := { height := 6, led := { store := [(.svc "c1" "s1", .svc svc), (.svc "c2" "s1", .svc svc)] } }
+    Tracked {} n { frm := s11, to := s21, index := idx } := by
+  intro svc s11 s21 n
+  refine .fresh ⟨Or.inr ⟨rfl, rfl, rfl, ?_⟩, rfl, ?_, ?_⟩ ?_
+  · intro sv h
+    have : n.led.getS (.svc s21.chain s21.sid) = some (.svc svc) := by decide
+    rw [this] at h
+    cases h; rfl
+  · show reqCounter n.led s11 s21 < idx
+    have : reqCounter n.led s11 s21 = 0 := by decide
+    omega
+  · simp [n, Led.getS, KV.get]
+  · intro d _
+    unfold listCount
+    have : n.led.getS (.timeout d) = none := by simp [n, Led.getS, KV.get]
+    rw [this]
+
+/-- non-vacuity: request 1 of the pair c1:s1 → c2:s1, accepted at height 7 with T = 4 (BEGIN, deadline 11, on the list of 11 once), is
+tracked as open at height 8 -/
+example :
+    let svc : Svc := { ordered := true, blacklist := [], available := true }
+    let s11 : SvcId := { bxh := "1356", chain := "c1", sid := "s1" }
+    let s21 : SvcId := { bxh := "1356", chain := "c2", sid := "s1" }
+    let t : TxId := { frm := s11, to := s21, index := 1 }
+    let n : Node := { height := 8, led := { store := [(.svc "c1" "s1", .svc svc), (.svc "c2" "s1", .svc svc),
+      (.txRec t, .trec { height := 11, status := .begin }), (.ic s11, .ic { ic := [(s21, 1)] }), (.timeout 11, .tlist [some (.single t)])] } }
+    Tracked {} n t := by
+  intro svc s11 s21 t n
+  refine .opened { height := 11, status := .begin } ⟨⟨Or.inr ⟨by decide, by decide, rfl, ?_⟩, by decide, rfl⟩, by decide, ?_, ?_⟩ rfl
+  · intro sv h
+    have : n.led.getS (.svc s21.chain s21.sid) = some (.svc svc) := by decide
+    rw [this] at h
+    cases h; rfl
+  · intro d _
+    unfold listCount
+    by_cases hd : d = 11
+    · subst hd; decide
+    · have : n.led.getS (.timeout d) = none := by
+        simp [n, Led.getS, KV.get, hd]
+        intro e; exact hd e.symm
+      rw [this]; exact Nat.zero_le _
+  · rintro d _ ⟨lst, e, _⟩
+    by_cases hd : d = 11
+    · exact hd
+    · exfalso
+      have : n.led.getS (.timeout d) = none := by
+        simp [n, Led.getS, KV.get, hd]
+        intro e; exact hd e.symm
+      rw [this] at e; cases e
+
 end Closed
 
 end Bxh.Props.C04
